@@ -259,6 +259,15 @@ THRESHOLDS = {
 }
 
 
+# documented health-range options -> the qpos coordinate they constrain
+RANGE_INDEX = {
+    "Hopper": {"healthy_z_range": 1, "healthy_angle_range": 2},
+    "Walker2d": {"healthy_z_range": 1, "healthy_angle_range": 2},
+    "Ant": {"healthy_z_range": 2},
+    "Humanoid": {"healthy_z_range": 2},
+}
+
+
 @eqx.filter_jit
 def _crafted(env, s, qpos, qvel, a):
     from mujoco import mjx
@@ -274,7 +283,8 @@ def oracle_boundary(ctx: Ctx, case):
     """The reference's step() judges a crafted successor state whose health coordinate sits just inside /
     outside a termination threshold (both sides get the same (s, a, s') triple)."""
     name = case["env"]
-    L, G = lerax_env(name), gym_env(name)
+    opts = _opts_key(case.get("opts", {}))
+    L, G = lerax_env(name), gym_env(name, opts)
     s, _ = _initial(L, jr.key(case["key"]))
     qpos = np.asarray(s.sim_state.qpos, np.float64).copy()
     qvel = np.asarray(s.sim_state.qvel, np.float64).copy()
@@ -283,8 +293,12 @@ def oracle_boundary(ctx: Ctx, case):
         qpos[i] = v
     a = jnp.asarray(case["action"], dtype=jnp.float32)
     s2, obs2, rew, term, info = _crafted(L, s, jnp.asarray(qpos, dtype=s.sim_state.qpos.dtype), jnp.asarray(qvel, dtype=s.sim_state.qvel.dtype), a)
-    gterm, contact = _compare_step(ctx, name, G, s, a, s2, obs2, rew, term, info, True, {"env": name, "layer": "boundary"})
-    ctx.count(nontrivial=True, classes=[name, "boundary", "terminated" if gterm else "healthy"], key=[name, case["index"], case["value"], case["key"]])
+    tags = {"env": name, "layer": "boundary"}
+    if opts:  # the crafted successor judged by the environment built with the drawn option (same physics)
+        obs2, rew, term, info = _funcs(lerax_env(name, opts), s, a, s2)
+        tags["opts"] = json_opts(case["opts"])
+    gterm, contact = _compare_step(ctx, name, G, s, a, s2, obs2, rew, term, info, True, tags)
+    ctx.count(nontrivial=True, classes=[name, "boundary", "terminated" if gterm else "healthy"] + ["with_option"] * bool(opts), key=[name, case["index"], case["value"], case["key"], tags.get("opts")])
 
 
 def common_options(name):
@@ -407,6 +421,23 @@ def worker(ctx: Ctx, payload):
         if isinstance(d, bool):
             case = {"env": name, "opts": {k: not d}, "key": int(rng.integers(0, 2**31 - 1)), "actions": [a.tolist() for a in _actions(rng, low, high, 4, "uniform")]}
             run_one("mj_options", oracle_options, case)
+    for k, d in common_options(name).items():  # every documented range with its lower / its upper end moved on its own
+        if isinstance(d, tuple):
+            lo, hi = (float(x) for x in d)
+            mv = lambda x, up: x * (1 + (0.25 if up else -0.25) * np.sign(x)) + (0.06 if up else -0.06)
+            for j, rngv in enumerate(([mv(lo, True), hi] if np.isfinite(lo) else None, [lo, mv(hi, False)] if np.isfinite(hi) else None)):
+                if rngv is not None and rngv[0] < rngv[1]:
+                    case = {"env": name, "opts": {k: rngv}, "key": int(rng.integers(0, 2**31 - 1)), "actions": [a.tolist() for a in _actions(rng, low, high, ep_len, ["corner", "uniform"][j])]}
+                    run_one("mj_options", oracle_options, case)
+    # health ranges given as options: crafted states on both sides of each end of a range moved away from its default
+    for k, idx in RANGE_INDEX.get(name, {}).items():
+        lo, hi = (float(x) for x in common_options(name)[k])
+        for moved in ([lo + 0.13 * max(abs(lo), 0.5), hi], [lo, hi - 0.11 * max(abs(hi), 0.5)] if np.isfinite(hi) else [lo, abs(lo) + 0.9]):
+            for th in moved:
+                if np.isfinite(th):
+                    for delta in (-3e-2, -2e-3, 2e-3, 3e-2):
+                        case = {"env": name, "opts": {k: moved}, "key": int(rng.integers(0, 2**31 - 1)), "index": idx, "value": float(th + delta), "action": rng.uniform(low, high).astype(np.float32).tolist()}
+                        run_one("mj_boundary", oracle_boundary, case)
     for e in range(n_opt):
         case = {"env": name, "opts": draw_options(rng, name), "key": int(rng.integers(0, 2**31 - 1)), "actions": [a.tolist() for a in _actions(rng, low, high, ep_len, modes[e % 4])]}
         if case["opts"]:
